@@ -489,7 +489,9 @@ class IntegerSequence(SequenceBase):
         if not self.i_step:
             # this is a one-off sequence
             # TODO - is this needed? if so, check it gives sensible behaviour
-            if point < self.p_start:
+            if point < self.p_start and not (
+                self.exclusions and self.p_start in self.exclusions
+            ):
                 return self.p_start
             else:
                 return None
